@@ -14,7 +14,16 @@ The arrays are carved out of a larger Python bytearray (ffi.from_buffer), so
 after *every* step the whole image -- object bytes and canaries -- is read
 straight from the bytearray (no cffi involved) and compared with the model.
 
-Passes (alphabets nest: core < narrow < wide; sizes on int[4]: 31 / 50 / 227):
+Families added after the audit (.cache/audit/C16.md), all inside the same alphabets / oracle:
+    * slices and slice assignments of POINTER views: a plain pointer accepts every well-formed slice (only the
+      ones inside the model's bytes are offered, negative start included) and the result aliases; an owning
+      pointer from ffi.new("T *") accepts exactly p[0:0], p[0:1], p[1:1]; malformed slices raise IndexError;
+    * slice assignments whose source OVERLAPS the target (x[i:j] = x[i+1:j+1], x[i-1:j-1], and iter(...) of them);
+    * a second shape list (SHAPES2): int[3][2] (x[i] is a view: a read descends into the row), int *[3], double[3],
+      unsigned char[4] (bytes sources), wchar_t[3] (str sources), int[0] three ways, void * arithmetic;
+    * indices / slice bounds -2**63, -2**63-1, -2**64; reflected arithmetic i + x (== x + i) and i - x (TypeError).
+
+Passes (alphabets nest: core < narrow < wide; sizes on int[4]: 32 / 54 / 255):
     quick    wide  : all histories of length <= 2 with at most one op outside the core alphabet (no merging)
              core  : core alphabet to depth 3, merging by key() beyond depth 1
     thorough wide2 : all histories of length <= 2 over the wide alphabet (no merging)
@@ -34,18 +43,26 @@ META = dict(
     technique="explicit-state search over all operation histories (index, slice, slice-assign, pointer arithmetic, "
               "addressof/offsetof, derived views) of real cdata objects in lock-step with a byte model, canaries "
               "around the storage",
-    text="From 10 array/pointer shapes (int[4], char[5], struct[3], long long[] n=3, owned and from_buffer-backed, "
-         "owning pointers, a pointer into the middle of an array) x both FFI front ends: quick = every history of "
-         "length <= 2 with at most one operation outside a 31-operation core alphabet (227-operation wide alphabet, "
+    text="From 20 array/pointer shapes (int[4], char[5], struct[3], long long[] n=3, owned and from_buffer-backed, "
+         "owning pointers, a pointer into the middle of an array; second list: int[3][2] whose items are views, "
+         "int *[3], double[3], unsigned char[4], wchar_t[3], int[0] cast/new/open, a void * into 8 bytes) x both FFI "
+         "front ends: quick = every history of "
+         "length <= 2 with at most one operation outside a 32-operation core alphabet (255-operation wide alphabet, "
          "no merging) and the core alphabet to depth 3 (merging beyond depth 1); thorough = all pairs over the wide "
-         "alphabet, all triples over a 50-operation alphabet and all triples with one wide operation (no merging), "
+         "alphabet, all triples over a 54-operation alphabet and all triples with one wide operation (no merging), "
          "core alphabet to depth 5 with merging beyond depth 2.  Indices straddle every comparison of "
-         "_cdata_get_indexed_ptr / _cdata_getslicearg (-1, 0, 1, n-1, n, n+1, 2**63-1, 2**63, None, step).  After "
+         "_cdata_get_indexed_ptr / _cdata_getslicearg (-2**64, -2**63-1, -2**63, -1, 0, 1, n-1, n, n+1, 2**63-1, "
+         "2**63, None, step).  Pointer views are sliced too: a plain pointer accepts every well-formed slice inside "
+         "the model's bytes (negative start included, result aliases), an owning pointer exactly [0:0], [0:1], [1:1] "
+         "(IndexError otherwise, memory untouched).  Slice assignment also from sources that overlap the target "
+         "(neighbouring slice of the same object, as cdata = memmove semantics, and as iterator), also on 65537- and "
+         "70001-item arrays.  Reflected i + p equals p + i, i - p is a TypeError.  After "
          "each step: acceptance (IndexError exactly when the statement says), value/address/length of the result, "
          "and the complete memory image including canaries, read from the backing bytearray, against the model.",
     note="the byte model is the oracle; indices whose byte offset does not fit a Py_ssize_t are outside C's pointer "
-         "arithmetic and are executed but not compared (counted); plain pointers are only dereferenced inside the "
-         "model's bytes")
+         "arithmetic and are executed but not compared (counted); plain pointers are only dereferenced / sliced inside "
+         "the model's bytes; x[i:j] = iter(x[i-1:j-1]) may give the lazy or the materialised result (the statement "
+         "does not say when an iterator is drained), nothing else")
 
 MAXS = 2 ** 63 - 1
 BIG = 2 ** 63
@@ -57,10 +74,21 @@ ELEMS = {
     "char": ("char", 1),
     "llong": ("long long", 8),
     "S": ("struct S", 4),
+    # element kinds of the second shape list (SHAPES2)
+    "row": ("int[2]", 8),          # item is itself an array: x[i] is a VIEW, not a copy
+    "pp": ("int *", 8),
+    "dbl": ("double", 8),
+    "uchar": ("unsigned char", 1),  # bytes sources go through the iterator path (no char fast path)
+    "wchar": ("wchar_t", 4),        # str sources
+    "void": ("void", 1),            # void * arithmetic only (item size 1); never indexed
 }
 _INTV = [305419896, -2, 65537, -1234567, 7, 2 ** 31 - 1, -2 ** 31, 99]
 _LLV = [2 ** 40 + 5, -3, 2 ** 62 + 1, -2 ** 63, 11, 2 ** 63 - 1, 77, -2 ** 33]
 _SA = [258, -2, 1000, -32768, 7, 32767, 513, 99]
+_DBL = [1.5, -2.25, 1e300, 5e-324, -1.0, 3.141592653589793, 65536.0, -1e-300]
+_UCH = [0x80, 0xFF, 0x01, 0x7F, 0xC3, 0x00, 0x41, 0xFE]
+_WCH = [0x20AC, 0x41, 0x1F600, 0xE9, 0x7A, 0x100, 0xFFFD, 0x30]
+_PPV = [0x10000, 0x7FFF0040, 0x10080, 0x100C0, 8, 0x10140, 0, 0x7FFFFFFFFFF0]      # never dereferenced
 
 # (elem, n, how)
 SHAPES = [
@@ -75,7 +103,36 @@ SHAPES = [
     ("S", 1, "ownptr"),        # ffi.new("struct S *")  (CT_IS_PTR_TO_OWNED path)
     ("char", 5, "new"),        # ffi.new("char[5]")
 ]
+# further element kinds and degenerate lengths (audit gap 2).  Explored by the passes listed in _passes().
+SHAPES2 = [
+    ("row", 3, "cast"),        # int[3][2]: x[i] is an int[2] view into the parent (rd descends into it)
+    ("row", 3, "new"),
+    ("int", 0, "cast"),        # int[0] between canaries: every index raises, [0:0] is valid, x+0 is valid
+    ("int", 0, "new"),         # ffi.new("int[0]")
+    ("int", 0, "newopen"),     # ffi.new("int[]", 0)
+    ("uchar", 4, "frombuf"),
+    ("wchar", 3, "new"),
+    ("dbl", 3, "cast"),
+    ("pp", 3, "new"),          # int *[3]
+    ("void", 8, "midptr"),     # void * into the middle of 8 bytes: arithmetic with item size 1
+]
 FFIKINDS = ("inline", "ool")
+
+
+def arr_t(elem, n):
+    return "int[%d][2]" % n if elem == "row" else "%s[%d]" % (ELEMS[elem][0], n)
+
+
+def open_t(elem):
+    return "int[][2]" if elem == "row" else "%s[]" % ELEMS[elem][0]
+
+
+def ptr_t(elem):
+    return "int(*)[2]" if elem == "row" else "%s *" % ELEMS[elem][0]
+
+
+def ptrarr_t(elem, n):
+    return "int(*)[%d][2]" % n if elem == "row" else "%s(*)[%d]" % (ELEMS[elem][0], n)
 
 
 # ---------------------------------------------------------------------------
@@ -90,10 +147,20 @@ def enc(elem, t):
         return [(0, bytes([0x41 + t]))]
     if elem == "llong":
         return [(0, struct.pack("<q", _LLV[t]))]
+    if elem == "row":
+        return [(0, struct.pack("<ii", _INTV[t], _INTV[(t + 3) % 8]))]
+    if elem == "pp":
+        return [(0, struct.pack("<Q", _PPV[t]))]
+    if elem == "dbl":
+        return [(0, struct.pack("<d", _DBL[t]))]
+    if elem == "uchar":
+        return [(0, bytes([_UCH[t]]))]
+    if elem == "wchar":
+        return [(0, struct.pack("<I", _WCH[t]))]
     return [(0, struct.pack("<h", _SA[t])), (2, bytes([0x61 + t]))]     # padding byte 3 is not written
 
 
-def pyval(elem, t):
+def pyval(elem, t, ffi=None):
     t %= 8
     if elem == "int":
         return _INTV[t]
@@ -101,6 +168,17 @@ def pyval(elem, t):
         return bytes([0x41 + t])
     if elem == "llong":
         return _LLV[t]
+    if elem == "row":
+        v = [_INTV[t], _INTV[(t + 3) % 8]]
+        return v if t % 2 == 0 else tuple(v)
+    if elem == "pp":
+        return ffi.NULL if _PPV[t] == 0 else ffi.cast("int *", _PPV[t])
+    if elem == "dbl":
+        return _DBL[t]
+    if elem == "uchar":
+        return _UCH[t]
+    if elem == "wchar":
+        return chr(_WCH[t])
     if t % 2 == 0:
         return {"a": _SA[t], "b": bytes([0x61 + t])}
     return [_SA[t], bytes([0x61 + t])]
@@ -113,6 +191,16 @@ def dec(elem, img, o):
         return bytes(img[o:o + 1])
     if elem == "llong":
         return struct.unpack_from("<q", img, o)[0]
+    if elem == "row":
+        return list(struct.unpack_from("<ii", img, o))
+    if elem == "pp":
+        return struct.unpack_from("<Q", img, o)[0]
+    if elem == "dbl":
+        return struct.unpack_from("<d", img, o)[0]
+    if elem == "uchar":
+        return img[o]
+    if elem == "wchar":
+        return chr(struct.unpack_from("<I", img, o)[0])
     return (struct.unpack_from("<h", img, o)[0], bytes(img[o + 2:o + 3]))
 
 
@@ -142,7 +230,8 @@ def get_ffi(kind):
         m = importlib.util.module_from_spec(spec)
         spec.loader.exec_module(m)
         f = m.ffi
-    if f.sizeof("struct S") != 4 or f.sizeof("long long") != 8 or f.sizeof("int") != 4:
+    if f.sizeof("struct S") != 4 or f.sizeof("long long") != 8 or f.sizeof("int") != 4 or \
+            f.sizeof("wchar_t") != 4 or f.sizeof("double") != 8 or f.sizeof("void *") != 8:
         raise InfraError("unexpected sizes on this platform")
     _FFI[kind] = f
     return f
@@ -179,10 +268,47 @@ def slice_ok(i, j, step, n):
     return (step is None and isinstance(i, int) and isinstance(j, int) and 0 <= i <= j <= n)
 
 
+def ptr_slice_ok(i, j, step):
+    """Plain (non-owning) pointer: no bounds at all, only the forms every slice needs."""
+    return (step is None and isinstance(i, int) and isinstance(j, int) and i <= j and _fits(i) and _fits(j))
+
+
+def _fits(v):
+    return -2 ** 63 <= v <= 2 ** 63 - 1
+
+
+# sources of a slice assignment that OVERLAP the target (audit gap 3): the neighbouring slice of the same object
+SELF_SRCS = ("self+1", "self-1", "iterself+1", "iterself-1")
+
+
+def _bytes_srcs(elem):
+    if elem == "char":
+        return ["bytes", "bytesshort", "byteslong", "bytearray"]
+    if elem == "uchar":
+        return ["bytes", "byteslong", "bytearray"]          # iterator path: bytes iterate as ints
+    if elem == "wchar":
+        return ["str", "strshort", "strlong"]
+    return []
+
+
 def _gen_ops(elem, total, view):
     kind, off, n = view
     size = ELEMS[elem][1]
     out = []
+    if elem == "void":
+        # void *: arithmetic only (the statement's p[i] / sizeof(T) clauses do not apply)
+        if kind != "ptr":
+            raise InfraError("bad view %r for void" % (view,))
+        for i in (0, 1, -1, 2, 5, -2, MAXS):
+            out.append((0 if i in (0, 1, -1) else 1, ("add", i)))
+        for i in (1, -1, 2, MAXS):
+            out.append((0 if i == 1 else 1, ("sub", i)))
+        for (i, j) in ((1, -1), (0, 5), (-2, 1)):
+            out.append((0 if (i, j) == (1, -1) else 1, ("diff", i, j)))
+        for i in (1, 0, -1):
+            out.append((1 if i == 1 else 2, ("radd", i)))
+        out.append((2, ("rsub", 1)))
+        return out
     if kind == "arr":
         def lv(core, narrow):
             return 0 if core else 1 if narrow else 2
@@ -195,6 +321,10 @@ def _gen_ops(elem, total, view):
                 out.append((lv(i == 0, False), ("wr", i, 1)))
             else:
                 out.append((lv(i in (-1, n), False), ("wr", i, 2)))
+        # audit gap 4: large negative indices (-2**63 fits a Py_ssize_t, -2**63-1 and -2**64 do not)
+        for i in (-BIG, -BIG - 1, -2 * BIG):
+            out.append((2, ("rd", i)))
+            out.append((2, ("wr", i, 2)))
         base = _dedupe([0, 1, n - 1, n, -1, n + 1])
         core_sl = [(0, n, None), (1, n - 1, None), (1, 1, None), (n, n, None), (-1, 1, None), (0, n + 1, None),
                    (n - 1, 1, None)]
@@ -202,26 +332,33 @@ def _gen_ops(elem, total, view):
         sls = [(i, j, None) for i in base for j in base]
         sls += [(0, MAXS, None), (MAXS, MAXS, None), (MAXS, 0, None), (0, BIG, None), (BIG, BIG, None),
                 (BIG, 0, None), (None, 1, None), (1, None, None), (None, None, None), (0, n, 1), (0, min(n, 2), 2),
-                (None, None, 2)]
+                (None, None, 2), (-BIG - 1, 0, None), (0, -BIG - 1, None), (-BIG, 0, None)]
         sls = _dedupe(sls)
         for s in sls:
             out.append((lv(s in core_sl, s in narrow_sl), ("sl",) + s))
         srcs = ["list", "short", "long", "cdata", "iter", "itershort", "iterlong", "cdshort", "cdlong"]
-        if elem == "char":
-            srcs += ["bytes", "bytesshort", "byteslong", "bytearray"]
+        srcs += _bytes_srcs(elem)
         narrow_src = ("list", "short", "long", "cdata", "bytes", "byteslong")
         for s in sls:
             i, j, step = s
             if slice_ok(i, j, step, n):
                 L = j - i
                 for src in srcs:
-                    if L == 0 and src in ("short", "itershort", "cdshort", "bytesshort"):
+                    if L == 0 and src in ("short", "itershort", "cdshort", "bytesshort", "strshort"):
                         continue
                     nar = (s in ((0, n, None), (1, n - 1, None)) and src in narrow_src) or \
                           (s == (1, 1, None) and src in ("list", "long"))
                     core = (s == (0, n, None) and src in ("list", "long", "cdata", "bytes")) or \
                            (s == (1, n - 1, None) and src in ("list", "short", "cdata", "byteslong"))
                     out.append((lv(core, nar), ("ss", i, j, step, src)))
+                # overlapping sources: x[i:j] = x[i+1:j+1] / x[i-1:j-1] and the iterator spellings
+                if L >= 1:
+                    mid = (i, j) == (1, n - 1)
+                    for src in SELF_SRCS:
+                        d = 1 if src.endswith("+1") else -1
+                        if 0 <= i + d and j + d <= n:
+                            out.append((lv(mid and src == "self-1", mid and src in ("self+1", "iterself-1")),
+                                        ("ss", i, j, step, src)))
             else:
                 for src in ("list", "cdata"):
                     nar = n >= 2 and (s, src) in (((0, n + 1, None), "list"), ((-1, 1, None), "list"),
@@ -240,9 +377,15 @@ def _gen_ops(elem, total, view):
             out.append((lv(i == 1, i in (0, n)), ("addressof", i)))
         for i in _dedupe([1, MAXS, 0, -1, n, BIG]):
             out.append((lv(i == 1, i == MAXS), ("offsetof", i)))
+        # audit gap 5: reflected arithmetic  i + x == x + i,  i - x is a TypeError
+        for i in _dedupe([1, n, -1]):
+            out.append((lv(False, i == 1), ("radd", i)))
+        out.append((2, ("rsub", 1)))
     elif kind == "ptr":
+        def inb(i, j):
+            return 0 <= off + i * size and off + j * size <= total
         for i in (0, -1, 1, -2, 2):
-            if 0 <= off + i * size and off + (i + 1) * size <= total:
+            if inb(i, i + 1):
                 out.append((0, ("rd", i)))
                 out.append((0 if i in (0, -1) else 1, ("wr", i, 3)))
                 out.append((1, ("wr", i, 4)))
@@ -255,6 +398,48 @@ def _gen_ops(elem, total, view):
         for i in (0, 1, -1, MAXS):
             out.append((0 if i in (1, -1) else 1, ("addressof", i)))
         out.append((1, ("offsetof", 2)))
+        # audit gap 1: slices of a plain pointer are unchecked C: every slice inside the model's bytes is
+        # accepted (negative start included) and aliases; the malformed forms raise IndexError as for arrays
+        pairs = [(i, j) for i in (0, -1, 1, -2, 2) for j in (0, -1, 1, -2, 2) if i <= j and inb(i, j)]
+
+        def pick(cands):
+            for c in cands:
+                if c in pairs:
+                    return c
+            return None
+        # the preferred empty / 1-item / 2-item slice of this view (negative start where possible)
+        first = {0: pick([(0, 0)]), 1: pick([(0, 1), (-1, 0)]), 2: pick([(-1, 1), (-2, 0), (0, 2)])}
+        # core: the preferred 1-item and 2-item slice; narrow: the empty one
+        for (i, j) in pairs:
+            c = first.get(j - i) == (i, j)
+            out.append((0 if c and j - i in (1, 2) else 1 if c else 2, ("sl", i, j, None)))
+        bad = [(1, 0, None), (2, -2, None), (None, 1, None), (0, None, None), (None, None, None), (0, 1, 1),
+               (None, None, 2), (0, BIG, None), (BIG, BIG, None), (-BIG - 1, 0, None), (0, -BIG - 1, None)]
+        for s in bad:
+            out.append((1 if s in ((1, 0, None), (0, 1, 1)) else 2, ("sl",) + s))
+        psrcs = ["list", "cdata", "short", "long", "iter", "cdlong"] + _bytes_srcs(elem)
+        for (i, j) in pairs:
+            L = j - i
+            c = first.get(L) == (i, j)
+            for src in psrcs:
+                if L == 0 and src in ("short", "bytesshort", "strshort"):
+                    continue
+                if src in ("list", "cdata") or c:
+                    out.append((0 if c and L == 1 and src == "list" else
+                                1 if c and L in (1, 2) and src in ("list", "cdata", "long") else 2,
+                                ("ss", i, j, None, src)))
+            if L >= 1:
+                for src in SELF_SRCS:
+                    d = 1 if src.endswith("+1") else -1
+                    if inb(i + d, j + d):
+                        out.append((1 if c and L == 2 and src == "self-1" else 2, ("ss", i, j, None, src)))
+        for s in bad:
+            out.append((1 if s == (1, 0, None) else 2, ("ss",) + s + ("list",)))
+            if s in ((1, 0, None), (0, 1, 1), (0, BIG, None)):
+                out.append((2, ("ss",) + s + ("cdata",)))
+        out.append((1, ("radd", 1)))
+        out.append((2, ("radd", -1)))
+        out.append((2, ("rsub", 1)))
     elif kind == "own":
         for i in (0, 1, -1, MAXS, BIG):
             out.append((0, ("rd", i)))
@@ -268,6 +453,31 @@ def _gen_ops(elem, total, view):
             out.append((0 if i == 0 else 1, ("addressof", i)))
         out.append((1, ("diff", 1, 0)))
         out.append((1, ("offsetof", 1)))
+        # audit gap 1: an owning pointer owns the single item 0: its slices must lie within [0:1]
+        # (p[0:0], p[0:1], p[1:1]); everything else raises IndexError without touching memory
+        osl = [(0, 1, None), (0, 2, None), (-1, 0, None), (1, 2, None), (0, 0, None), (1, 1, None),
+               (-1, 1, None), (1, 0, None), (-1, -1, None), (2, 2, None), (0, MAXS, None), (MAXS, MAXS, None),
+               (0, BIG, None), (-BIG - 1, 0, None), (-BIG, 0, None), (None, 1, None), (0, None, None),
+               (0, 1, 1), (None, None, None)]
+        core_o = osl[:4]
+        narrow_o = osl[:8]
+        for s in osl:
+            out.append((0 if s in core_o else 1 if s in narrow_o else 2, ("sl",) + s))
+        osrcs = ["list", "short", "long", "cdata", "iter", "iterlong", "cdshort", "cdlong"]
+        for s in osl:
+            i, j, step = s
+            if slice_ok(i, j, step, 1):
+                for src in osrcs:
+                    if j - i == 0 and src in ("short", "cdshort"):
+                        continue
+                    out.append((0 if s == (0, 1, None) and src == "list" else
+                                1 if src in ("list", "long", "cdata") else 2, ("ss", i, j, step, src)))
+            else:
+                for src in ("list", "cdata"):
+                    out.append((0 if s in ((0, 2, None), (1, 2, None)) and src == "list" else
+                                1 if s in narrow_o else 2, ("ss", i, j, step, src)))
+        out.append((2, ("radd", 0)))
+        out.append((2, ("rsub", 1)))
     else:
         raise InfraError("bad view %r" % (view,))
     return out
@@ -287,11 +497,10 @@ def _flush():
     s = _CUR[0]
     if s is not None and s.last_class is not None:
         _COUNTS[s.last_class] = _COUNTS.get(s.last_class, 0) + 1
+        if tuple(s.cfg[3:]) in SHAPES2:
+            k = "shape2/%s/%s" % (arr_t(s.cfg[3], s.cfg[4]), s.cfg[5])
+            _COUNTS[k] = _COUNTS.get(k, 0) + 1
     _CUR[0] = None
-
-
-def _fits(v):
-    return -2 ** 63 <= v <= 2 ** 63 - 1
 
 
 class Sys(object):
@@ -301,16 +510,22 @@ class Sys(object):
         self.last_class = None
         lvl, budget, ffikind, elem, n, how = cfg
         self.cfg = cfg
-        self.lvl, self.elem, self.how = lvl, elem, how
+        self.lvl, self.how = lvl, how
         self.budget = budget        # how many ops outside the core alphabet one history may contain
         self.noncore = 0
         self.ffi = ffi = get_ffi(ffikind)
-        cname, size = ELEMS[elem]
-        self.cname, self.size = cname, size
+        self._set_elem(elem)
+        size = self.size
         self.total = total = n * size
         self.keep = []
+        init = bytearray((k * 7 + 3) & 0xFF for k in range(PRE + total + POST))
+        if elem in ("wchar", "dbl"):
+            # arbitrary bytes are not values of these types (code points > 0x10FFFF, NaNs): start from values
+            for k in range(n):
+                for rel, b in enc(elem, 5 + k):
+                    init[PRE + k * size + rel:PRE + k * size + rel + len(b)] = b
         if how in ("cast", "frombuf", "fbopen", "midptr"):
-            self.backing = backing = bytearray((k * 7 + 3) & 0xFF for k in range(PRE + total + POST))
+            self.backing = backing = init
             self.lo = PRE
             import ctypes
             hold = (ctypes.c_char * len(backing)).from_buffer(backing)
@@ -319,16 +534,19 @@ class Sys(object):
             if how in ("cast", "midptr"):
                 whole = ffi.from_buffer("char[]", backing)
                 self.keep.append(whole)
-                x = ffi.cast("%s(*)[%d]" % (cname, n), whole + PRE)[0]
+                if elem == "void":
+                    x = ffi.cast("void *", whole + PRE)
+                else:
+                    x = ffi.cast(ptrarr_t(elem, n), whole + PRE)[0]
             else:
                 # a window of exactly the object's bytes.  (A ctypes window rather than a memoryview slice:
                 # CPython 3.12.1 crashes in memoryview.tp_clear when a memoryview with live exports is part of
                 # a garbage cycle, which has nothing to do with the property.)
                 win = (ctypes.c_char * total).from_buffer(backing, PRE)
                 if how == "frombuf":
-                    x = ffi.from_buffer("%s[%d]" % (cname, n), win)
+                    x = ffi.from_buffer(arr_t(elem, n), win)
                 else:
-                    x = ffi.from_buffer("%s[]" % cname, win)
+                    x = ffi.from_buffer(open_t(elem), win)
             self.root = x
             if how == "midptr":
                 self.cur = x + 2
@@ -340,13 +558,13 @@ class Sys(object):
             self.backing = None
             self.lo = 0
             if how == "new":
-                x = ffi.new("%s[%d]" % (cname, n))
+                x = ffi.new(arr_t(elem, n))
                 self.view = ("arr", 0, n)
             elif how == "newopen":
-                x = ffi.new("%s[]" % cname, n)
+                x = ffi.new(open_t(elem), n)
                 self.view = ("arr", 0, n)
             elif how == "ownptr":
-                x = ffi.new("%s *" % cname)
+                x = ffi.new(ptr_t(elem))
                 self.view = ("own", 0, None)
             else:
                 raise InfraError("bad how %r" % (how,))
@@ -354,13 +572,18 @@ class Sys(object):
             self.base_addr = int(ffi.cast("uintptr_t", x))
             # give owned memory the same distinctive initial content (through ctypes, not cffi)
             import ctypes
-            init = bytes((k * 7 + 3) & 0xFF for k in range(PRE, PRE + total))
-            ctypes.memmove(self.base_addr, init, total)
+            ctypes.memmove(self.base_addr, bytes(init[PRE:PRE + total]), total)
         # the model's image: the complete backing (canaries included) or just the owned bytes
         if self.backing is not None:
             self.M = bytearray(self.backing)
         else:
             self.M = bytearray(self.actual())
+
+    def _set_elem(self, elem):
+        """The element kind of the CURRENT view (changes when a read of an int[3][2] descends into a row)."""
+        self.elem = elem
+        self.cname, self.size = ELEMS[elem]
+        self.ptr_t, self.open_t = ptr_t(elem), open_t(elem)
 
     # -- observation channels that do not go through cffi indexing -------------
     def actual(self):
@@ -420,6 +643,29 @@ class Sys(object):
                 return self._bad("read-value", what=what, got=repr(got), want=repr(want),
                                  addr_delta=a - self.base_addr, want_delta=byteoff)
             return None
+        if self.elem == "row":
+            # the item is an array: the result must be an int[2] VIEW of the parent's bytes
+            ffi = self.ffi
+            try:
+                t = ffi.typeof(r)
+                got = [r[0], r[1]] if t is ffi.typeof("int[2]") else None
+                a = self.addr(r)
+            except Exception as e:
+                return self._bad("read-result", what=what, error=repr(e))
+            if got != want or a != self.base_addr + byteoff:
+                return self._bad("read-value", what=what, got=repr(got), want=repr(want), type=t.cname,
+                                 addr_delta=a - self.base_addr, want_delta=byteoff)
+            return None
+        if self.elem == "pp":
+            ffi = self.ffi
+            try:
+                t = ffi.typeof(r)
+                got = self.addr(r)
+            except Exception as e:
+                return self._bad("read-result", what=what, error=repr(e))
+            if t is not ffi.typeof("int *") or got != want:
+                return self._bad("read-value", what=what, got=got, want=want, type=t.cname)
+            return None
         if r != want or type(r) is not type(want):
             return self._bad("read-value", what=what, got=repr(r), want=repr(want))
         return None
@@ -427,37 +673,41 @@ class Sys(object):
     def _make_src(self, src, L):
         """-> (source object, number of values it holds, value index base)"""
         ffi, elem = self.ffi, self.elem
-        if src in ("list", "iter", "cdata", "bytes", "bytearray"):
+        if src in ("list", "iter", "cdata", "bytes", "bytearray", "str"):
             cnt = L
-        elif src in ("short", "itershort", "cdshort", "bytesshort"):
+        elif src in ("short", "itershort", "cdshort", "bytesshort", "strshort"):
             cnt = L - 1
         else:
             cnt = L + 1
         tb = {"list": 0, "short": 0, "long": 0, "iter": 1, "itershort": 1, "iterlong": 1,
-              "cdata": 2, "cdshort": 2, "cdlong": 2, "bytes": 3, "bytesshort": 3, "byteslong": 3, "bytearray": 4}[src]
-        vals = [pyval(elem, tb + k) for k in range(cnt)]
+              "cdata": 2, "cdshort": 2, "cdlong": 2, "bytes": 3, "bytesshort": 3, "byteslong": 3, "bytearray": 4,
+              "str": 3, "strshort": 3, "strlong": 3}[src]
+        vals = [pyval(elem, tb + k, ffi) for k in range(cnt)]
         if src in ("list", "short", "long"):
             o = vals
         elif src.startswith("iter"):
             o = iter(vals)
         elif src.startswith("cd"):
-            o = ffi.new("%s[]" % self.cname, vals)
-        elif src.startswith("bytes"):
-            o = b"".join(vals)
+            o = ffi.new(self.open_t, vals)
+        elif src.startswith("str"):
+            o = "".join(vals)
         else:
-            o = bytearray(b"".join(vals))
+            b = bytes(vals) if elem == "uchar" else b"".join(vals)
+            o = b if src.startswith("bytes") else bytearray(b)
         return o, cnt, tb
 
     # -- the step ----------------------------------------------------------------
     def apply(self, op):
         if self.lvl and op not in ops_for(self.elem, self.total, self.view, 0):
             self.noncore += 1
+        elem0 = self.elem
         info = self._apply(op)
         if info is None:
             info = self._memcheck("after-" + op[0])
         if info is not None:
             info["op"] = list(op)
             info["cfg"] = list(self.cfg)
+            info["elem"] = elem0
         return info
 
     def _apply(self, op):
@@ -466,6 +716,7 @@ class Sys(object):
         size = self.size
         cur = self.cur
         name = op[0]
+        total = self.total
 
         if name in ("rd", "wr"):
             i = op[1]
@@ -475,13 +726,18 @@ class Sys(object):
                 ok = i == 0
             else:
                 ok = True           # plain pointer: enabled() only offers in-bounds indices
-            cls = "%s/%s/%s" % (name, kind, "ok" if ok else ("neg" if i < 0 else "big" if i >= MAXS else "high"))
+                if not (0 <= off + i * size and off + (i + 1) * size <= total):
+                    raise InfraError("pointer index outside the model: %r %r" % (self.view, op))
+            cls = "%s/%s/%s" % (name, kind, "ok" if ok else ("neg-beyond-ssize_t" if i < -BIG else "neg" if i < 0
+                                                              else "big" if i >= MAXS else "high"))
+            if self.elem not in ("int", "char", "llong", "S"):
+                cls += "/" + self.elem
             self.last_class = cls
             try:
                 if name == "rd":
                     r = cur[i]
                 else:
-                    cur[i] = pyval(self.elem, op[2])
+                    cur[i] = pyval(self.elem, op[2], ffi)
                 exc = None
             except Exception as e:
                 exc = e.with_traceback(None)
@@ -489,7 +745,13 @@ class Sys(object):
                 if exc is not None:
                     return self._bad("rejects-valid-index", i=i, error=repr(exc))
                 if name == "rd":
-                    return self._check_item(r, off + i * size, "x[i]")
+                    bad = self._check_item(r, off + i * size, "x[i]")
+                    if bad is None and self.elem == "row":
+                        # x[i] of an int[n][2] is an int[2] view of the parent: continue INSIDE that view
+                        self.cur = r
+                        self._set_elem("int")
+                        self.view = ("arr", off + i * size, 2)
+                    return bad
                 self._store_model(off + i * size, op[2])
                 return None
             if exc is None:
@@ -501,9 +763,20 @@ class Sys(object):
 
         if name in ("sl", "ss"):
             i, j, step = op[1], op[2], op[3]
-            ok = slice_ok(i, j, step, n)
+            if kind == "arr":
+                ok = slice_ok(i, j, step, n)
+                pfx = ""
+            elif kind == "own":
+                ok = slice_ok(i, j, step, 1)        # an owning pointer owns exactly item 0
+                pfx = "own/"
+            else:
+                ok = ptr_slice_ok(i, j, step)       # no bounds; enabled() only offers slices inside the model
+                pfx = "ptr/"
+                if ok and not (0 <= off + i * size and off + j * size <= total):
+                    raise InfraError("pointer slice outside the model: %r %r" % (self.view, op))
             if ok:
-                scl = "ok-empty" if i == j else "ok-full" if (i, j) == (0, n) else "ok-part"
+                scl = "ok-empty" if i == j else "ok-full" if kind == "arr" and (i, j) == (0, n) else \
+                    "ok-negstart" if i < 0 else "ok-part"
             elif step is not None:
                 scl = "step"
             elif i is None or j is None:
@@ -516,6 +789,7 @@ class Sys(object):
                 scl = "neg"
             else:
                 scl = "stop>n"
+            scl = pfx + scl
             key = slice(i, j, step)
             if name == "sl":
                 self.last_class = "sl/" + scl
@@ -526,17 +800,18 @@ class Sys(object):
                     exc = e.with_traceback(None)
                 if not ok:
                     if exc is None:
-                        return self._bad("accepts-bad-slice", slice=[i, j, step], n=n)
+                        return self._bad("accepts-bad-slice", slice=[i, j, step], n=n, vkind=kind)
                     if not isinstance(exc, IndexError):
                         return self._bad("wrong-exception-slice", slice=[i, j, step], n=n, error=repr(exc), cls=scl)
                     return None
                 if exc is not None:
-                    return self._bad("rejects-valid-slice", slice=[i, j, step], n=n, error=repr(exc))
+                    return self._bad("rejects-valid-slice", slice=[i, j, step], n=n, error=repr(exc), vkind=kind)
                 t = ffi.typeof(r)
                 if t.kind != "array" or t.item is not ffi.typeof(self.cname) or len(r) != j - i or \
                         self.addr(r) != self.base_addr + off + i * size:
                     return self._bad("slice-result", slice=[i, j], type=t.cname, length=len(r) if t.kind == "array" else None,
-                                     addr_delta=self.addr(r) - self.base_addr, want_delta=off + i * size, want_len=j - i)
+                                     addr_delta=self.addr(r) - self.base_addr, want_delta=off + i * size, want_len=j - i,
+                                     vkind=kind)
                 # reading through the fresh view sees the model's elements i..j-1
                 for k in _dedupe([0, j - i - 1]):
                     if 0 <= k < j - i:
@@ -549,6 +824,8 @@ class Sys(object):
             # slice assignment
             src = op[4]
             L = (j - i) if ok else 2
+            if src in SELF_SRCS:
+                return self._ass_overlap(i, j, src, scl)
             o, cnt, tb = self._make_src(src, L)
             self.keep.append(o)
             self.last_class = "ss/%s/%s" % (scl, src if ok else "-")
@@ -559,18 +836,19 @@ class Sys(object):
                 exc = e.with_traceback(None)
             if not ok:
                 if exc is None:
-                    return self._bad("accepts-bad-slice-assign", slice=[i, j, step], n=n)
+                    return self._bad("accepts-bad-slice-assign", slice=[i, j, step], n=n, vkind=kind)
                 if not isinstance(exc, IndexError):
                     return self._bad("wrong-exception-slice", slice=[i, j, step], n=n, error=repr(exc), cls=scl)
                 return None
             if cnt == L:
                 if exc is not None:
-                    return self._bad("rejects-valid-slice-assign", slice=[i, j], src=src, error=repr(exc))
+                    return self._bad("rejects-valid-slice-assign", slice=[i, j], src=src, error=repr(exc), vkind=kind)
                 for k in range(L):
                     self._store_model(off + (i + k) * size, tb + k, whole=src.startswith("cd"))
                 return None
             if exc is None:
-                return self._bad("slice-assign-wrong-count-accepted", slice=[i, j], src=src, given=cnt, need=L)
+                return self._bad("slice-assign-wrong-count-accepted", slice=[i, j], src=src, given=cnt, need=L,
+                                 vkind=kind)
             # The statement requires the error; it does not say the target items are left alone.
             # Bytes outside the target items must be untouched; inside, adopt what is there.
             a = self.actual()
@@ -579,13 +857,14 @@ class Sys(object):
             self.M[lo:hi] = a[lo:hi]
             return None
 
-        if name in ("add", "sub"):
+        if name in ("add", "sub", "radd"):
             i = op[1]
-            d = i if name == "add" else -i
+            d = -i if name == "sub" else i
             fits = _fits(d * size) and _fits(i)
-            self.last_class = "%s/%s" % (name, "fits" if fits else "offset-overflow(excluded)")
+            self.last_class = "%s/%s%s" % (name, "fits" if fits else "offset-overflow(excluded)",
+                                           "/void" if self.elem == "void" else "")
             try:
-                r = (cur + i) if name == "add" else (cur - i)
+                r = (cur + i) if name == "add" else (cur - i) if name == "sub" else (i + cur)
             except Exception as e:
                 if fits:
                     return self._bad("arith-raises", op=name, i=i, error=repr(e))
@@ -593,7 +872,7 @@ class Sys(object):
             if not fits:
                 return None      # C has no answer for an offset that overflows ptrdiff_t: executed, not compared
             t = ffi.typeof(r)
-            if t is not ffi.typeof(self.cname + " *"):
+            if t is not ffi.typeof(self.ptr_t):
                 return self._bad("arith-type", op=name, i=i, type=t.cname)
             want = (self.base_addr + off + d * size) % 2 ** 64
             if self.addr(r) != want:
@@ -610,9 +889,20 @@ class Sys(object):
                 self.view = ("ptr", off + d * size, None)
             return None
 
+        if name == "rsub":
+            # int - pointer has no meaning in C: TypeError, and nothing else happens
+            self.last_class = "rsub"
+            try:
+                r = op[1] - cur
+            except TypeError:
+                return None
+            except Exception as e:
+                return self._bad("rsub-wrong-exception", error=repr(e))
+            return self._bad("rsub-accepted", got=repr(r))
+
         if name == "diff":
             i, j = op[1], op[2]
-            self.last_class = "diff"
+            self.last_class = "diff" + ("/void" if self.elem == "void" else "")
             try:
                 got = (cur + i) - (cur + j)
             except Exception as e:
@@ -635,7 +925,7 @@ class Sys(object):
                 return self._bad("addressof-overflow-accepted", i=i)
             t = ffi.typeof(r)
             same = (r == cur + i)
-            if t is not ffi.typeof(self.cname + " *") or not same or \
+            if t is not ffi.typeof(self.ptr_t) or not same or \
                     self.addr(r) != (self.base_addr + off + i * size) % 2 ** 64:
                 return self._bad("addressof-value", i=i, type=t.cname, equal=same,
                                  delta=self.addr(r) - self.base_addr, want_delta=off + i * size)
@@ -646,7 +936,7 @@ class Sys(object):
             fits = _fits(i) and _fits(i * size)
             self.last_class = "offsetof/%s" % ("fits" if fits else "overflow")
             try:
-                r = ffi.offsetof(self.cname + "[]", i)
+                r = ffi.offsetof(self.open_t, i)
             except Exception as e:
                 if fits:
                     return self._bad("offsetof-raises", i=i, error=repr(e))
@@ -656,6 +946,43 @@ class Sys(object):
             return None
 
         raise InfraError("unknown op %r" % (op,))
+
+    def _ass_overlap(self, i, j, src, scl):
+        """x[i:j] = x[i+d:j+d] (same item type and length: one memmove) and x[i:j] = iter(x[i+d:j+d])
+        (items are read one by one while the target is being written), d = +1 / -1.  The source is a
+        live view of the same bytes, so the expected result follows from aliasing alone."""
+        kind, off, n = self.view
+        size = self.size
+        L = j - i
+        d = 1 if src.endswith("+1") else -1
+        self.last_class = "ss/%s/%s/%s" % (scl, src, "overlap" if L >= 2 else "adjacent")
+        lo = self.lo + off + i * size
+        slo = self.lo + off + (i + d) * size
+        old = bytes(self.M)
+        snapshot = old[slo:slo + L * size]                      # what a memmove / a materialised source gives
+        try:
+            o = self.cur[i + d:j + d]
+            if src.startswith("iter"):
+                o = iter(o)
+            self.keep.append(o)
+            self.cur[i:j] = o
+        except Exception as e:
+            return self._bad("rejects-valid-slice-assign", slice=[i, j], src=src, error=repr(e), vkind=kind)
+        want = [snapshot]
+        if src == "iterself-1":
+            # lazily reading x[i-1], x[i], ... while writing x[i], x[i+1], ... propagates the first item.
+            # The statement does not say whether an iterator is drained before the first store, so both
+            # the lazy and the materialised result are accepted (and nothing else).
+            want.append(old[slo:slo + size] * L)
+        a = self.actual()
+        got = a[lo:lo + L * size]
+        if got not in want:
+            return self._bad("overlap-assign-result", slice=[i, j], src=src, vkind=kind, got=got.hex(),
+                             want=[w.hex() for w in want])
+        if src == "iterself-1" and L >= 2:
+            self.last_class = "ss/%s/%s(%s)/overlap" % (scl, src, "materialised" if got == snapshot else "lazy")
+        self.M[lo:lo + L * size] = got
+        return None
 
     def close(self):
         return None
@@ -785,7 +1112,8 @@ def run(ctx):
     jobs = []
     ncfg = {}
     for pname, lvl, budget, depth, d0 in _passes(ctx):
-        shapes = SHAPES[:6] if pname == "wide3" else SHAPES      # wide3: the six shapes of DESIGN.md only (cost)
+        # wide3: the six shapes of DESIGN.md only (cost); every other pass: both shape lists
+        shapes = SHAPES[:6] if pname == "wide3" else SHAPES + SHAPES2
         for fk in FFIKINDS:
             for sh in shapes:
                 jobs.append((pname, (lvl, budget, fk) + sh, depth, d0))
@@ -797,6 +1125,18 @@ def run(ctx):
             pname, depth, d0, st.states, st.transitions, st.merged, len(st.violations), len(crashes)))
         for k, v in sorted(counts.items()):
             ctx.count(k, v)
+            # the families added after the audit, summed over their classes
+            parts = k.split("/")
+            if parts[0] in ("sl", "ss") and parts[1] == "ptr":
+                ctx.count("family/plain-pointer-slice-transitions", v)
+            if parts[0] in ("sl", "ss") and parts[1] == "own":
+                ctx.count("family/owning-pointer-slice-transitions", v)
+            if parts[0] == "ss" and parts[-1] in ("overlap", "adjacent"):
+                ctx.count("family/self-overlapping-slice-assign-transitions", v)
+            if parts[0] == "shape2":
+                ctx.count("family/second-shape-list-transitions", v)
+            if parts[0] in ("radd", "rsub"):
+                ctx.count("family/reflected-arithmetic-transitions", v)
         for h, info in st.violations:
             ctx.violation(_sig(info), {"history": [list(o) for o in h], "info": info, "cfg": info.get("cfg")})
         for item, cr, last in crashes:
@@ -825,10 +1165,15 @@ def run(ctx):
         "passes": cov_pass,
         "alphabet_sizes_on_int4": asz,
         "shapes": [list(s) for s in SHAPES],
+        "shapes2": [list(s) for s in SHAPES2],
         "ffi_kinds": list(FFIKINDS),
         "rule": "every history of length <= depth over the enabled-op alphabet of each pass, for every shape x FFI "
                 "kind; every transition executes the real cdata operation and compares acceptance, result and the "
-                "whole memory image with the model; histories are never merged up to d0",
+                "whole memory image with the model; histories are never merged up to d0.  The alphabet of a pointer "
+                "view contains its slices and slice assignments (class_histogram sl/ptr/*, ss/ptr/*, sl/own/*, "
+                "ss/own/*), the alphabet of an array the self-overlapping sources (ss/*/self+1, self-1, iterself+1, "
+                "iterself-1); the shapes of `shapes2` run in every pass except wide3 (shape2/* counts transitions "
+                "per shape; family/* sums the added families)",
     }
     return ctx.finish(cov, [
         "byte model + view (kind, offset, length) is the reference; memory is observed through the backing "
@@ -839,6 +1184,10 @@ def run(ctx):
         "(the statement only requires the error); every other byte must be unchanged",
         "beyond d0 two histories with equal key() = (view, all model bytes, ctype name, length) are assumed to have "
         "the same futures in the implementation",
+        "x[i:j] = iter(x[i-1:j-1]) (source read lazily while the target is written): both the lazily propagated "
+        "and the materialised (memmove-like) result are accepted; the cdata spelling must give the memmove result",
+        "owning-pointer slices follow the fix 3f358bb: within [0:1] only; plain pointers are unchecked, so only "
+        "slices inside the model's bytes are executed",
     ])
 
 
@@ -850,6 +1199,14 @@ def _sig(info):
         s["where"] = info["where"]
     if info.get("op"):
         s["op"] = info["op"][0]
+        if info["op"][0] == "ss" and info["op"][-1] in SELF_SRCS:
+            s["src"] = info["op"][-1]
+    # the families added after the audit carry the view kind / element kind, so that a finding on
+    # pointer slices or on the second shape list is listed (and matched) separately
+    if info.get("view") and info["view"][0] != "arr":
+        s["vkind"] = info["view"][0]
+    if info.get("elem") not in (None, "int", "char", "llong", "S"):
+        s["elem"] = info["elem"]
     return s
 
 
